@@ -1,1 +1,2 @@
+import Cpppo.Props.C11
 import Cpppo.Props.C19
